@@ -50,7 +50,7 @@ pub fn trees() -> DocSpec {
     let mut b = Builder::new();
     let nt_root = b.reserve();
     let nt_mid = b.reserve();
-    let nt_leaf = b.add(Val::dict(vec![("Limits", Val::Arr(vec![Val::Str(b"a".to_vec()), Val::Str(b"b".to_vec())])), ("Names", Val::Arr(vec![Val::Str(b"a".to_vec()), Val::Arr(vec![Val::r(3), Val::name("Fit")]), Val::Str(b"b".to_vec()), Val::Null]))]));
+    let nt_leaf = b.add(Val::dict(vec![("Limits", Val::Arr(vec![Val::Str(b"a".to_vec()), Val::Str(b"b".to_vec())])), ("Names", Val::Arr(vec![Val::Str(b"a".to_vec()), Val::Arr(vec![Val::r(3), Val::name("Fit")]), Val::Str(b"b".to_vec()), Val::Arr(vec![Val::r(3), Val::name("FitR"), Val::Int(0), Val::Int(0), Val::Int(10), Val::Int(10)])]))]));
     b.put(nt_mid, Val::dict(vec![("Limits", Val::Arr(vec![Val::Str(b"a".to_vec()), Val::Str(b"b".to_vec())])), ("Kids", Val::Arr(vec![Val::r(nt_leaf)]))]));
     b.put(nt_root, Val::dict(vec![("Kids", Val::Arr(vec![Val::r(nt_mid)]))]));
     let names = b.add(Val::dict(vec![("Dests", Val::r(nt_root))]));
